@@ -141,19 +141,23 @@ def proxyObs (c : PCase) : Sx :=
     let t := c.fixedTarget
     let o := serve consts (c.svcOf t) fs
     let early := c.client == "closeearly"
-    let out := if early then [] else o.groups.flatten
+    -- closeearly: the pump forwards the pending input, passes the end of the client's stream on as a
+    -- half-close (aebf686) and forwards what the service still answers
+    let out := o.groups.flatten
     let upgradedHere := match o.status with | .upgraded i => i == upName | _ => false
     let raw : Bytes := if !early && upgradedHere && endsUpgraded then (payloadBytes c).map upTransform else []
     let ending := if early then "closed" else match o.status with
       | .eof => "open"
       | .err => "closed"
       | .upgraded _ => "open"
-    -- closeearly: the pump forwards the pending input, then shuts the service connection down in both
-    -- directions; how many replies still get through is a race, what comes is a prefix of the direct replies
-    let bridgedSx : Sx := if early then .list [.atom "bridged", .list [.atom "prefix", .atom "t"], .atom ending]
-      else .list [.atom "bridged", .list (.atom "out" :: out.map ofReply), bytesAtom raw, .atom ending]
+    let bridgedSx : Sx := .list [.atom "bridged", .list (.atom "out" :: out.map ofReply), bytesAtom raw, .atom ending]
+    -- when the service closes the connection the pump stops by itself; its exit status is 0 (end of
+    -- stream) or 1 (reset, the service left input unread) depending on a race the harness folds into
+    -- one token
+    let svcClosed := !early && (match o.status with | .err => true | _ => false)
     .list [.atom "obs", bridgedSx,
-           .list [.atom "exit", .atom "0"], directSx, .atom "-", .list [.atom "upseen", .atom "-", .atom "-"]]
+           .list [.atom "exit", .atom (if svcClosed then "closed-by-service" else "0")], directSx, .atom "-",
+           .list [.atom "upseen", .atom "-", .atom "-"]]
   else
     let w := c.world
     let early := c.client == "closeearly"
@@ -195,7 +199,7 @@ def proxyLine (line : String) : String :=
   match parse line with
   | none => "(model-parse-error)"
   | some (.list [.atom "raceprobe", _]) => "(raceprobe kept)"     -- fixed by ac1225d
-  | some (.list [.atom "closeprobe", _]) => "(closeprobe cut)"   -- handle_connect shuts the service connection down at once
+  | some (.list [.atom "closeprobe", _]) => "(closeprobe complete)"   -- fixed by aebf686 (half-close)
   | some sx =>
     match parsePCase sx with
     | some c => render (proxyObs c)
